@@ -114,10 +114,12 @@ Inductive op := Delete | AddOrUpdate.
 Record change := mkCh { c_op : op; c_res : resource; c_err : bool (* Error <> "" *) }.
 
 (* a ConfigurationProblem, keyed by the object it is about (kind/ns/name) *)
-Record problem := mkP { p_obj : string; p_is_error : bool; p_reason : string; p_msg : string }.
+(* p_uid: the UID of the object the problem is about (a problem is reported once per object, not once per name) *)
+Record problem := mkP { p_obj : string; p_uid : string; p_is_error : bool; p_reason : string; p_msg : string }.
 
 Definition problem_eqb (a b : problem) : bool :=
-  Bool.eqb (p_is_error a) (p_is_error b) && String.eqb (p_reason a) (p_reason b) && String.eqb (p_msg a) (p_msg b).
+  Bool.eqb (p_is_error a) (p_is_error b) && String.eqb (p_reason a) (p_reason b) && String.eqb (p_msg a) (p_msg b) &&
+  String.eqb (p_uid a) (p_uid b).
 
 (* ---- events ---- *)
 
